@@ -795,6 +795,14 @@ def run(ctx):
         "the ISA database rows are taken as the encoding rules; rows contradicting the SDM (listed under db_quirks_overridden, each confirmed by llvm-mc/objdump) are overridden",
         "absolute memory operands with default/rel address type in 64-bit mode are rip-relative with a relocated displacement: the displacement value is C04's, only the form is checked",
         "acceptance itself (operand signatures, decorations or prefixes a row does not allow) is C13's question: such observations are listed as unjudged",
+        "row kinds modelled beyond plain ModRM rows: mandatory-SIB operands (AMX tmem, MPX mib: ModRM.rm=100), 3DNow! (opcode byte after ModRM/SIB/disp), far pointers "
+        "(m16:16/32/64 and ptr16:16/32), register-addressed memory (enqcmd/enqcmds/movdir64b in ModRM.reg, umonitor in ModRM.rm), adx / RAO-INT legacy rows; "
+        "NOT modelled (forms_not_modelled): APX (EVEX map 4, ND/NF/SCC/dfv, REX2), EVEX rows without a tuple type (APX-promoted BMI/kmov/cmpccxadd/AMX), tilemovrow - "
+        "an unmodelled EVEX / REX2 row only excuses bytes that start with 62 / D5",
+        "named deviation actions of the spec (deviation_actions_used): LeaAbsU32AsLea32, LeaAbsU32SignExtendedAddress, AndZext32, MovImm64ToImm32, Zext32RowOfTheDatabase, "
+        "RetZeroAsRet, XchgRaxRaxAsNop - each preserves the operation, the destination and the value written; everything else must match a row exactly",
+        "generator: the special rows of the ModRM/SIB/absolute table are complete for every form; absolute / rip / no-base rows are crossed with a low and a high register bank, "
+        "the rex and lock options; immediates are drawn from the whole int64 range the API takes (boundaries of every width) and EncodingOptions::kOptimizeForSize is swept",
         "mod-mr / mod-rm / vex options are swept but not enforced (the assembler documents them as hints); rex, vex3, evex, long are enforced",
         "plain -O1 build of the working tree",
     ]
